@@ -1,5 +1,9 @@
 (** The check passes of pdl's semantic analyzer (pdl-compiler/src/analyzer.rs),
     one Coq function per Rust function, same names, Rust line ranges in the comments.
+    Line numbers are those of /repo at commit 26c71c0 ("fix: analyzer panics when a
+    fixed enum field refers to an enum declared later in the file"); the differential
+    tester re-locates every panic site in the current source by its text, so later
+    shifts of the file do not invalidate the comparison.
 
     A pass returns the list of diagnostic CODES it emits, in emission order ([diags];
     [E11] is [11]).  Passes that contain a reachable [unwrap()], map index,
@@ -56,7 +60,7 @@ Fixpoint scope_new_go (ds : list decl) (seen : list string) : diags :=
 
 Definition scope_new (file : file) : diags := scope_new_go (f_decls file) [].
 
-(** ** check_decl_identifiers (580-758) *)
+(** ** check_decl_identifiers (580-768) *)
 
 Inductive mark := Temporary | Permanent.
 
@@ -83,7 +87,7 @@ Definition recurses_into_type (d : fdesc) : bool :=
   | _ => false
   end.
 
-(** [bfs] (591-717).  The recursion is not structural; every call that goes past the
+(** [bfs] (591-727).  The recursion is not structural; every call that goes past the
     mark test turns one more identifier [Temporary], so the depth is at most the number
     of declarations plus one. *)
 Fixpoint bfs (fuel : nat) (scope : file) (decl : decl) (c : context) {struct fuel} : pres context :=
@@ -98,7 +102,7 @@ Fixpoint bfs (fuel : nat) (scope : file) (decl : decl) (c : context) {struct fue
           | Some Temporary => POk (push_diag c 2)
           | None =>
               let c := set_mark c id Temporary in
-              (* 620-681: the fields *)
+              (* 620-691: the fields *)
               let! c :=
                 (fix fields (fs : list field) (c : context) : pres context :=
                    match fs with
@@ -122,7 +126,8 @@ Fixpoint bfs (fuel : nat) (scope : file) (decl : decl) (c : context) {struct fue
                                  else POk c
                              end
                          | FixedEnum enum_id _ =>
-                             (* the enum of a fixed field is visited before its user *)
+                             (* 678-687 (fix 26c71c0): the enum of a fixed field is visited
+                                before its user; anything else is left to check_fixed_fields *)
                              match lookup_decl scope enum_id with
                              | Some (DEnum _ _ _ as enum_decl) => bfs fuel' scope enum_decl c
                              | _ => POk c
@@ -131,7 +136,7 @@ Fixpoint bfs (fuel : nat) (scope : file) (decl : decl) (c : context) {struct fue
                          end in
                        fields rest c
                    end) (decl_fields decl) c in
-              (* 684-712: the parent *)
+              (* 694-722: the parent *)
               let! c :=
                 match decl with
                 | DPacket _ _ _ (Some parent_id) =>
@@ -146,14 +151,14 @@ Fixpoint bfs (fuel : nat) (scope : file) (decl : decl) (c : context) {struct fue
                     | Some (DStruct _ _ _ _ as parent_decl) => bfs fuel' scope parent_decl c
                     | Some _ => POk (push_diag c 8)
                     end
-                | _ => POk c   (* only packets and structs have a parent_id: 710 is dead *)
+                | _ => POk c   (* only packets and structs have a parent_id: 720 is dead *)
                 end in
               POk (set_mark (push_history c decl) id Permanent)
           end
       end
   end.
 
-(** 720-757.  [inl]: the diagnostics; [inr]: the file reordered (tests dropped). *)
+(** 730-767.  [inl]: the diagnostics; [inr]: the file reordered (tests dropped). *)
 Definition check_decl_identifiers (file : file) : pres (diags + Ast.file) :=
   let fuel := S (S (List.length (f_decls file))) in
   let! c :=
@@ -181,7 +186,7 @@ Definition check_decl_identifiers (file : file) : pres (diags + Ast.file) :=
 (** Fold a per-declaration check over the file. *)
 Definition per_decl (f : decl -> diags) (file : file) : diags := flat_map f (f_decls file).
 
-(** ** check_field_identifiers (763-791) *)
+(** ** check_field_identifiers (773-801) *)
 Fixpoint check_field_identifiers_go (fs : list field) (local_scope : list string) : diags :=
   match fs with
   | [] => []
@@ -197,11 +202,11 @@ Fixpoint check_field_identifiers_go (fs : list field) (local_scope : list string
 Definition check_field_identifiers (file : file) : diags :=
   per_decl (fun d => check_field_identifiers_go (decl_fields d) []) file.
 
-(** ** check_enum_declarations (797-1027) *)
+(** ** check_enum_declarations (807-1037) *)
 
 Definition range_contains (r : N * N) (x : N) : bool := (fst r <=? x) && (x <=? snd r).
 
-(** [ordered_range] (801-803) *)
+(** [ordered_range] (811-813) *)
 Definition ordered_range (r : N * N) : N * N := (N.min (fst r) (snd r), N.max (fst r) (snd r)).
 
 Record estate := mkEstate {
@@ -218,7 +223,7 @@ Definition insert_tag_id (st : estate) (id : string) : estate :=
   mkEstate (id :: tags_by_id st) (tags_by_value st) (tag_other st)
            (ediags st ++ (if mem id (tags_by_id st) then [12] else [])).
 
-(** [check_tag_value] (805-866) *)
+(** [check_tag_value] (815-876) *)
 Definition check_tag_value (id : string) (value : N) (range : N * N)
            (reserved_ranges : list (N * N)) (st : estate) : estate :=
   let st := insert_tag_id st id in
@@ -228,7 +233,7 @@ Definition check_tag_value (id : string) (value : N) (range : N * N)
   epush st (flat_map (fun r => if range_contains (ordered_range r) value then [43] else [])
                      reserved_ranges).
 
-(** [check_tag_range] (868-918) *)
+(** [check_tag_range] (878-928) *)
 Definition check_tag_range (id : string) (tag_range : N * N) (tags : list (string * N))
            (range : N * N) (st : estate) : estate :=
   let st := insert_tag_id st id in
@@ -237,7 +242,7 @@ Definition check_tag_range (id : string) (tag_range : N * N) (tags : list (strin
   let st := epush st (if snd tag_range <=? fst tag_range then [40] else []) in
   fold_left (fun st t => check_tag_value (fst t) (snd t) (ordered_range tag_range) [] st) tags st.
 
-(** [check_tag_other] (920-951) *)
+(** [check_tag_other] (930-961) *)
 Definition check_tag_other (id : string) (st : estate) : estate :=
   let st := insert_tag_id st id in
   mkEstate (tags_by_id st) (tags_by_value st) true
@@ -257,7 +262,7 @@ Fixpoint insert_range (x : N * N) (l : list (N * N)) : list (N * N) :=
 Definition sort_ranges (l : list (N * N)) : list (N * N) :=
   fold_left (fun acc x => insert_range x acc) l [].
 
-(** [windows(2)] of the sorted ranges (998-1022) *)
+(** [windows(2)] of the sorted ranges (1008-1032) *)
 Fixpoint check_overlaps (l : list (N * N)) : diags :=
   match l with
   | l_tag :: ((r_tag :: _) as rest) =>
@@ -285,9 +290,9 @@ Definition check_enum_declaration (d : decl) : diags :=
 
 Definition check_enum_declarations (file : file) : diags := per_decl check_enum_declaration file.
 
-(** ** check_size_fields (1265-1385) *)
+(** ** check_size_fields (1275-1395) *)
 
-(** The field a [_size_(field_id)] designates (1303-1307) *)
+(** The field a [_size_(field_id)] designates (1313-1317) *)
 Definition find_size_target (d : decl) (fid : string) : option field :=
   find (fun f => match f_desc f with
                  | Payload _ => String.eqb fid "_payload_"
@@ -303,7 +308,7 @@ Fixpoint check_size_fields_go (d : decl) (fs : list field)
   match fs with
   | [] => []
   | f :: rest =>
-      (* 1272-1298: duplicates *)
+      (* 1282-1308: duplicates *)
       let dup :=
         match f_desc f with
         | Size fid _ => if mem fid size_for_id then [23] else []
@@ -321,7 +326,7 @@ Fixpoint check_size_fields_go (d : decl) (fs : list field)
         | ElementSize fid _ => fid :: element_size_for_id
         | _ => element_size_for_id
         end in
-      (* 1301-1380: what the identifier names *)
+      (* 1311-1390: what the identifier names *)
       let target :=
         match f_desc f with
         | Size fid _ =>
@@ -347,7 +352,7 @@ Fixpoint check_size_fields_go (d : decl) (fs : list field)
 Definition check_size_fields (file : file) : diags :=
   per_decl (fun d => check_size_fields_go d (decl_fields d) [] []) file.
 
-(** ** check_fixed_fields (1393-1448) *)
+(** ** check_fixed_fields (1403-1458) *)
 Definition check_fixed_field (scope : file) (f : field) : diags :=
   match f_desc f with
   | FixedScalar width value => if width <? bit_width value then [32] else []
@@ -364,9 +369,9 @@ Definition check_fixed_field (scope : file) (f : field) : diags :=
 Definition check_fixed_fields (file : file) : diags :=
   per_decl (fun d => flat_map (check_fixed_field file) (decl_fields d)) file.
 
-(** ** check_payload_fields (1457-1506) *)
+(** ** check_payload_fields (1467-1516) *)
 
-(** [requires_payload] (1460-1462) *)
+(** [requires_payload] (1470-1472) *)
 Definition requires_payload (file : file) (d : decl) : bool :=
   existsb (fun child => match decl_fields child with [] => false | _ => true end)
           (iter_children file d).
@@ -381,7 +386,7 @@ Definition check_payload_fields (file : file) : diags :=
            | _ => []
            end))) file.
 
-(** ** check_array_fields (1511-1540) *)
+(** ** check_array_fields (1521-1550) *)
 Definition check_array_fields (file : file) : diags :=
   per_decl (fun d =>
     flat_map (fun f => match f_desc f with
@@ -389,7 +394,7 @@ Definition check_array_fields (file : file) : diags :=
                        | _ => []
                        end) (decl_fields d)) file.
 
-(** ** check_padding_fields (1545-1564) *)
+(** ** check_padding_fields (1555-1574) *)
 Fixpoint check_padding_fields_go (fs : list field) (previous_is_array : bool) : diags :=
   match fs with
   | [] => []
@@ -407,10 +412,10 @@ Fixpoint check_padding_fields_go (fs : list field) (previous_is_array : bool) : 
 Definition check_padding_fields (file : file) : diags :=
   per_decl (fun d => check_padding_fields_go (decl_fields d) false) file.
 
-(** ** check_checksum_fields (1571-1574): a stub *)
+(** ** check_checksum_fields (1581-1584): a stub *)
 Definition check_checksum_fields (file : file) : diags := [].
 
-(** ** check_optional_fields (1582-1673) *)
+(** ** check_optional_fields (1592-1683) *)
 Fixpoint check_optional_fields_go (fs : list field) (local_scope : list (string * field))
   : pres diags :=
   match fs with
@@ -437,7 +442,7 @@ Fixpoint check_optional_fields_go (fs : list field) (local_scope : list (string 
             | _, Some _ => POk (d1 ++ d2 ++ [48])
             | Some 0, None | Some 1, None => POk (d1 ++ d2)
             | Some _, None => POk (d1 ++ d2 ++ [48])
-            | None, None => PPanic "1664:check_optional_fields:unreachable!()"
+            | None, None => PPanic "1674:check_optional_fields:unreachable!()"
             end
         end in
       let local_scope' := match field_id f with
@@ -451,7 +456,7 @@ Fixpoint check_optional_fields_go (fs : list field) (local_scope : list (string 
 Definition check_optional_fields (file : file) : pres diags :=
   pconcat_map (fun d => check_optional_fields_go (decl_fields d) []) (f_decls file).
 
-(** ** check_constraint (1030-1156) *)
+(** ** check_constraint (1040-1166) *)
 Definition check_constraint (constraint : constr) (decl : decl) (scope : file) : pres diags :=
   match find (fun f => id_is f (c_id constraint)) (iter_fields scope decl) with
   | None => POk [15]
@@ -479,14 +484,14 @@ Definition check_constraint (constraint : constr) (decl : decl) (scope : file) :
           | Some _ =>
               match c_value constraint with
               | Some _ => POk [21]
-              | None => PPanic "1140:check_constraint:constraint.value.unwrap()"
+              | None => PPanic "1150:check_constraint:constraint.value.unwrap()"
               end
           end
-      | _ => PPanic "1154:check_constraint:unreachable!()"
+      | _ => PPanic "1164:check_constraint:unreachable!()"
       end
   end.
 
-(** ** check_constraints_list (1159-1183) *)
+(** ** check_constraints_list (1169-1193) *)
 Fixpoint check_constraints_list (constraints : list constr) (parent_decl : decl) (scope : file)
          (constraints_by_id : list string) : pres diags :=
   match constraints with
@@ -498,13 +503,13 @@ Fixpoint check_constraints_list (constraints : list constr) (parent_decl : decl)
       POk (a ++ b ++ r)
   end.
 
-(** ** check_decl_constraints (1194-1222) *)
+(** ** check_decl_constraints (1204-1232) *)
 Definition check_decl_constraints (file : file) : pres diags :=
   pconcat_map (fun decl =>
     match decl with
     | DPacket _ constraints _ (Some parent_id) | DStruct _ constraints _ (Some parent_id) =>
         match lookup_decl file parent_id with
-        | None => PPanic "1201:check_decl_constraints:scope.typedef.get(parent_id).unwrap()"
+        | None => PPanic "1211:check_decl_constraints:scope.typedef.get(parent_id).unwrap()"
         | Some parent_decl =>
             check_constraints_list constraints parent_decl file
               (map c_id (flat_map decl_constraints (iter_parents file decl)))
@@ -512,14 +517,14 @@ Definition check_decl_constraints (file : file) : pres diags :=
     | _ => POk []
     end) (f_decls file).
 
-(** ** check_group_constraints (1233-1252) *)
+(** ** check_group_constraints (1243-1262) *)
 Definition check_group_constraints (file : file) : pres diags :=
   pconcat_map (fun decl =>
     pconcat_map (fun field =>
       match f_desc field with
       | Group group_id constraints =>
           match lookup_decl file group_id with
-          | None => PPanic "1239:check_group_constraints:scope.typedef.get(group_id).unwrap()"
+          | None => PPanic "1249:check_group_constraints:scope.typedef.get(group_id).unwrap()"
           | Some group_decl => check_constraints_list constraints group_decl file []
           end
       | _ => POk []
@@ -575,7 +580,7 @@ Definition annotate_field (sch : schema) (scope : list string) (decl : decl) (fi
             | Some s => POk s
             | None => PPanic "102:Size::mul:lhs * rhs"
             end
-          else PPanic "456:annotate_field:scope.get(type_id).unwrap()"
+          else PPanic "456:annotate_field:scope.get(type_id).unwrap() (array element)"
       | Array id _ _ _ None => POk (if has_array_size decl id then SDynamic else SUnknown)
       | Array _ None None _ (Some _) => PPanic "471:annotate_field:unreachable!()"
       end
@@ -655,7 +660,7 @@ Definition schema_new (file : file) : pres aschema :=
          POk (mkASchema (as_decls r) (snd a :: as_fields r))
      end) (f_decls file) [].
 
-(** ** check_field_offsets (1678-1725) *)
+(** ** check_field_offsets (1688-1735) *)
 
 Definition must_be_aligned (scope : file) (f : field) : bool :=
   match f_desc f with
@@ -677,7 +682,7 @@ Fixpoint check_field_offsets_go (scope : file) (fs : list field) (sizes : list s
         match sz with
         | SStatic size =>
             if fits_usize (offset + size) then POk (offset + size)
-            else PPanic "1719:check_field_offsets:offset + size"
+            else PPanic "1729:check_field_offsets:offset + size"
         | _ => POk 0
         end in
       let! r := check_field_offsets_go scope rest sizes' offset' in
@@ -698,7 +703,7 @@ Definition check_field_offsets (file : file) (schema : aschema) : pres diags :=
   pconcat_map2 (fun d sizes => check_field_offsets_go file (decl_fields d) sizes 0)
                (f_decls file) (as_fields schema).
 
-(** ** check_decl_sizes (1732-1765) *)
+(** ** check_decl_sizes (1742-1775) *)
 Fixpoint check_decl_sizes_go (fs : list field) (sizes : list size) (static_size : N)
   : pres (diags * N) :=
   match fs, sizes with
@@ -711,7 +716,7 @@ Fixpoint check_decl_sizes_go (fs : list field) (sizes : list size) (static_size 
       if fits_usize (static_size + add) then
         let! r := check_decl_sizes_go rest sizes' (static_size + add) in
         POk ((here ++ fst r), snd r)
-      else PPanic "1749:check_decl_sizes:static_size += .."
+      else PPanic "1759:check_decl_sizes:static_size += .."
   | _, _ => POk ([], static_size)
   end.
 
